@@ -19,11 +19,12 @@ StrLen == atoi(IOEnv.C30_STRLEN)
 MaxLines == atoi(IOEnv.C30_LINES)
 
 CpJ(s) == [cp |-> s]                     \* code points travel as {"cp": [...]}; the driver decodes them (transport)
-Pre == Cp("#host fn report_int(n: int) -> void\n#host fn report_float(x: float) -> void\n#host fn report_str(s: string) -> void\n")
+Pre == Cp("#host fn report_int(n: int) -> void\n#host fn report_float(x: float) -> void\n#host fn report_str(s: string) -> void\n#host fn report_float2(x: float, y: float) -> void\n")
 HostFns == << [name |-> "report_int", args |-> <<"int">>, ret |-> "void"],
               [name |-> "report_float", args |-> <<"float">>, ret |-> "void"],
-              [name |-> "report_str", args |-> <<"string">>, ret |-> "void"] >>
-Header == [header |-> TRUE, pre |-> CpJ(Pre), hostfns |-> HostFns, prelines |-> 3]
+              [name |-> "report_str", args |-> <<"string">>, ret |-> "void"],
+              [name |-> "report_float2", args |-> <<"float", "float">>, ret |-> "void"] >>
+Header == [header |-> TRUE, pre |-> CpJ(Pre), hostfns |-> HostFns, prelines |-> 4]
 
 Reports(f, arg) == [compile |-> "ok", status |-> "done", host |-> <<[f |-> f, args |-> <<arg>>, tid |-> 0]>>]
 Diag == [compile |-> "diag"]
@@ -63,6 +64,16 @@ FloatItem(c) ==
   [kind |-> "float", spelling |-> sp, line |-> Line("report_float", Cp(sp)),
    expect |-> Reports("report_float", FloatBits(c.neg, c.n, c.e)),
    cat |-> "float-exact+" \o c.var \o (IF c.neg THEN "+negated" ELSE "")]
+\* two float literals side by side (neighbouring arguments: two consecutive constant pushes): every pair of spellings of
+\* 0, 1/2, 1 with either sign - each literal denotes its own value whatever stands next to it
+PairBase == {[fam |-> "float", n |-> n, e |-> e, var |-> v, neg |-> s] : n \in {0, 1}, e \in {0, 1}, v \in {"plain", "trailing0"}, s \in BOOLEAN}
+FloatPairCases == {[fam |-> "floatpair", a |-> x, b |-> y] : x \in PairBase, y \in PairBase}
+FloatPairItem(c) ==
+  LET sa == SpellFloat(FloatSpelling(c.a))  sb == SpellFloat(FloatSpelling(c.b)) IN
+  [kind |-> "float", spelling |-> sa \o ", " \o sb, line |-> Line("report_float2", Cp(sa \o ", " \o sb)),
+   expect |-> [compile |-> "ok", status |-> "done",
+               host |-> <<[f |-> "report_float2", args |-> <<FloatBits(c.a.neg, c.a.n, c.a.e), FloatBits(c.b.neg, c.b.n, c.b.e)>>, tid |-> 0]>>],
+   cat |-> "float-pair"]
 \* 1 followed by 309 zeros: beyond the largest binary64 (about 1.8e308)
 RECURSIVE Zeros(_)
 Zeros(k) == IF k = 0 THEN "" ELSE "0" \o Zeros(k - 1)
@@ -120,9 +131,10 @@ BlockItem(lay) ==
 \* ---------------------------------------------------------------- exhaustive enumeration
 VARIABLE c
 FamSel == IOEnv.C30_FAMS                  \* "all" or "block" (only the multi-line layouts)
-Cases(L, K) == (IF FamSel = "block" THEN {} ELSE IntCases \cup FloatCases \cup StrCases(L))
+Cases(L, K) == (IF FamSel = "block" THEN {} ELSE IntCases \cup FloatCases \cup FloatPairCases \cup StrCases(L))
                \cup {[fam |-> "block", lay |-> l] : l \in Layouts(K)}
 Item(x) == CASE x.fam = "int" -> IntItem(x) [] x.fam = "float" -> FloatItem(x) [] x.fam = "floatbig" -> FloatBigItem(x)
+             [] x.fam = "floatpair" -> FloatPairItem(x)
              [] x.fam = "str" -> StrItem(x) [] x.fam = "block" -> BlockItem(x.lay)
 Init == c \in Cases(StrLen, MaxLines)
 Next == UNCHANGED c
